@@ -83,8 +83,7 @@ theorem tie_cleanupConds : cleanupConds =
 
 /-- setupLookupTables (`effMount`, `classesOf`): a mount without classes goes to "default"; a class
 seen for the first time is appended to `bal.classes`; the classes are sorted at the end. (The
-read-only propagation `mnt.ReadOnly || srv.ReadOnly` is an assignment, not a fact kind; it is
-covered by the correspondence check and the read-only oracle.) -/
+read-only propagation is tied by `tie_setupAssigns`.) -/
 theorem tie_setupConds : setupConds = ["if len(mnt.StorageClasses) == 0", "if mbc == nil"] := rfl
 theorem tie_setupCalls : setupCalls = ["append", "sort.Strings"] := rfl
 theorem tie_setupStrings : setupStrings = ["default", "default"] := rfl
@@ -130,5 +129,58 @@ theorem tie_trashSources : trashJSONReturns =
 /-- field sources of a pull request (`pullReq`) -/
 theorem tie_pullSources : pullJSONReturns =
   ["json.Marshal(KeepstorePullRequest{ Locator: string(p.SizedDigest[:32]), Servers: []string{p.From.URLBase()}, MountUUID: p.To.KeepMount.UUID, })"] := rfl
+
+/-- every assignment of balanceBlock to its bookkeeping (slot construction with the initial `want`,
+the replica attached to a slot, unsafeToDelete, the want/prot maps and counters, done, the safe loop,
+underreplicated, the final want, lost), in source order. Model counterparts: `initSlots`,
+`replicaOn`, `protectStep`, `wantStep`, `trySlot`, `pass1`/`pass2`, `safeCount`, `classIter`,
+`finalSlot`, `lostFlag`. -/
+theorem tie_balanceAssigns : balanceAssigns =
+  ["slots := make([]slot, 0, bal.mounts)",
+   "repl = &blk.Replicas[r]",
+   "slots = append(slots, slot{ mnt: mnt, repl: repl, want: repl != nil && mnt.ReadOnly, })",
+   "underreplicated := false",
+   "repli, replj := si.repl != nil, sj.repl != nil",
+   "replWant := 0",
+   "replProt := 0",
+   "unsafeToDelete[slot.repl.Mtime] = true",
+   "protMnt[slot.mnt] = true",
+   "replProt += slot.mnt.Replication",
+   "protDev[slot.mnt.DeviceID] = true",
+   "slots[i].want = true",
+   "wantSrv[slot.mnt.KeepService] = true",
+   "wantMnt[slot.mnt] = true",
+   "wantDev[slot.mnt.DeviceID] = true",
+   "replWant += slot.mnt.Replication",
+   "done := false",
+   "done = trySlot(i)",
+   "done = trySlot(i)",
+   "safe := 0",
+   "safeDev := map[string]bool{}",
+   "safeDev[slot.mnt.DeviceID] = true",
+   "safe += slot.mnt.Replication",
+   "underreplicated = safe < desired",
+   "unsafeToDelete[slot.repl.Mtime] = true",
+   "slots[i].want = true",
+   "lost = true",
+   "lost = true"] := rfl
+
+/-- setupLookupTables: default class table, read-only propagation from the service, class tables -/
+theorem tie_setupAssigns : setupAssigns =
+  ["bal.classes = defaultClasses",
+   "bal.mountsByClass = map[string]map[*KeepMount]bool{\"default\": {}}",
+   "mnt.ReadOnly = mnt.ReadOnly || srv.ReadOnly",
+   "bal.mountsByClass[\"default\"][mnt] = true",
+   "bal.classes = append(bal.classes, class)",
+   "bal.mountsByClass[class] = map[*KeepMount]bool{mnt: true}",
+   "mbc[mnt] = true"] := rfl
+
+/-- cleanupMounts: rwdev, the kept mounts, replication forced to 1 -/
+theorem tie_cleanupAssigns : cleanupAssigns =
+  ["rwdev := map[string]*KeepService{}",
+   "rwdev[mnt.DeviceID] = srv",
+   "dedup = append(dedup, mnt)",
+   "srv.mounts = dedup",
+   "mnt.Replication = 1"] := rfl
 
 end ArvVerif.Tie.C05
